@@ -144,14 +144,15 @@ def lpLoop : Bytes → Bytes → Nat → Int → Int → Bool → Int
   | a :: s1, b :: s2, i, startIdx, endIdx, inBrace =>
     if a ≠ b then
       (if inBrace ∨ endIdx + 1 = (i : Int) then startIdx else (i : Int))
-    else if a = startByte then lpLoop s1 s2 (i + 1) i endIdx true
+    else if a = startByte then lpLoop s1 s2 (i + 1) (if inBrace then startIdx else (i : Int)) endIdx true
     else if a = endByte then lpLoop s1 s2 (i + 1) startIdx i false
     else lpLoop s1 s2 (i + 1) startIdx endIdx inBrace
   | _, _, i, startIdx, endIdx, _ =>
     -- one string exhausted: `i = l`
     if endIdx = (i : Int) - 1 then startIdx else (i : Int)
 
-/-- `longestPrefix` (with the D22 repair: compare before updating the brace state). -/
+/-- `longestPrefix` (with the D22 repair: compare before updating the brace state; and the D28 repair: a `{` inside a
+token does not move the start of the token). -/
 def longestPrefix (s1 s2 : Bytes) : Int := lpLoop s1 s2 0 (-10) (-10) false
 
 /-- `Segment.Similarity`. -/
